@@ -3,8 +3,11 @@ import ZV.Model.C08
     `c08 <useed> <fp:subj:iss:skid:akid;…> <chk rows of 0/1;…> <op,op,…|->`
     ops: `a<r>:<i>` AddCert, `p<r>:<tok.tok…>` AppendCertsFromPEM (tok `c<i>` = certificate i, anything else = skipped block),
          `s<d>:<a>:<b>` regs[d] = regs[a].Sum(regs[b]).
-    output: per variable `nil` or `size/uids/subjects`, then `C=` Contains bits, `V=` Covers bits,
-            `P=` findVerifiedParents per variable x certificate (`parents/errCert/errNil`), `M=` PEM results. -/
+    output: one observation of ALL FOUR pool variables for the initial state and after EVERY operation (the state
+            after k operations is `run init (ops.take k)`), joined by `#`, then `M=` PEM results.  An observation is,
+            per variable (`|`), `nil` or `size/uids/subjects/C=<Contains bits>/N=<byName buckets>/K=<bySubjectKeyId
+            buckets>/P=<findVerifiedParents per certificate: parents/errCert/errNil>` -- or `=` when that text is
+            identical to the one of the same variable in the previous observation -- then `V=` Covers bits. -/
 namespace ZV.C08
 
 def parseCert (uid : Nat) (s : String) : Option Cert :=
@@ -73,14 +76,42 @@ def parseOp (u : List Cert) (s : String) : Option Op :=
 def bit (b : Bool) : String := if b then "1" else "0"
 def dots (l : List Nat) : String := ".".intercalate (l.map toString)
 
-def showPool : Option Pool → String
-  | none => "nil"
-  | some p => s!"{size (some p)}/{dots ((certificates p).map (·.uid))}/{dots (subjects p)}"
-
 def showParents : Res Parents → String
   | .ok p => s!"{dots p.parents}/{match p.errCert with | some c => toString c.uid | none => "-"}/{bit p.errNil}"
   | .err => "err"
   | .panic => "panic"
+
+/-- insertion of `n` into an ascending duplicate-free list -/
+def insAsc (n : Nat) : List Nat → List Nat
+  | [] => [n]
+  | x :: xs => if n < x then n :: x :: xs else if n = x then x :: xs else x :: insAsc n xs
+
+/-- sorted distinct non-zero identifiers -/
+def idsOf (l : List Nat) : List Nat := (l.foldl (fun acc n => insAsc n acc) []).filter (· ≠ 0)
+
+/-- full observation of one pool variable -/
+def showPool (u : List Cert) (m : List (List Bool)) (names kids : List Nat) : Option Pool → String
+  | none => "nil"
+  | some p =>
+    let cb := String.join (u.map (fun c => bit (contains (some p) c)))
+    let ns := ",".intercalate (names.map (fun n => dots (p.byName n)))
+    let ks := ",".intercalate (kids.map (fun k => dots (p.bySubjectKeyId k)))
+    let pp := ",".intercalate (u.map (fun c => showParents (findVerifiedParents (chkOf m) (some p) c)))
+    s!"{size (some p)}/{dots ((certificates p).map (·.uid))}/{dots (subjects p)}/C={cb}/N={ns}/K={ks}/P={pp}"
+
+def regIds : List Nat := [0, 1, 2, 3]
+
+def showCovers (regs : Regs) : String :=
+  String.join (regIds.map (fun a => String.join (regIds.map (fun b => bit (covers (regs a) (regs b))))))
+
+/-- the observations of the successive states, each pool text replaced by `=` when unchanged -/
+def showSteps : Option (List String) → List (List String × String) → List String
+  | _, [] => []
+  | prev, (pools, cov) :: rest =>
+    let shown := match prev with
+      | none => pools
+      | some pv => List.zipWith (fun a b => if a == b then "=" else b) pv pools
+    ("|".intercalate shown ++ "|V=" ++ cov) :: showSteps (some pools) rest
 
 def handle (args : List String) : String :=
   match args with
@@ -93,16 +124,19 @@ def handle (args : List String) : String :=
       match opl with
       | none => "bad-op"
       | some os =>
-        match run init os with
-        | .ok (regs, pems) =>
-          let rs := [0, 1, 2]
-          let pools := "|".intercalate (rs.map (fun r => showPool (regs r)))
-          let cb := String.join (rs.map (fun r => String.join (u.map (fun c => bit (contains (regs r) c)))))
-          let vb := String.join (rs.map (fun a => String.join (rs.map (fun b => bit (covers (regs a) (regs b))))))
-          let pp := ",".intercalate (rs.flatMap (fun r => u.map (fun c => showParents (findVerifiedParents (chkOf m) (regs r) c))))
-          s!"{pools}|C={cb}|V={vb}|P={pp}|M={String.join (pems.map bit)}"
-        | .err => "err"
-        | .panic => "panic"
+        let names := idsOf (u.flatMap (fun c => [c.subject, c.issuer]))
+        let kids := idsOf (u.flatMap (fun c => [c.skid, c.akid]))
+        -- the state after every prefix of the history
+        let states := (List.range (os.length + 1)).mapM (fun k =>
+          match run init (os.take k) with
+          | .ok (regs, _) => some regs
+          | _ => none)
+        match states, run init os with
+        | some sts, .ok (_, pems) =>
+          let obs := sts.map (fun regs => (regIds.map (fun r => showPool u m names kids (regs r)), showCovers regs))
+          "#".intercalate (showSteps none obs) ++ s!"#M={String.join (pems.map bit)}"
+        | _, .err => "err"
+        | _, _ => "panic"
   | _ => "bad-op"
 
 end ZV.C08
